@@ -480,6 +480,94 @@ theorem unencodable_key_never_verifies (cfg : Cfg α) (reg : Registry α) (s : S
         | none => simp [preLoads, hnd, checkSign, hs, checkHash, hsp, hx] at hp
       simp [decodeUsesMac, hs, hnd, hsp, hsd]
 
+/-! ### the MAC is injective in the secret only up to its own key normalisation -/
+
+/-- `MacInjective` idealises HMAC twice: no collisions, and every secret a different key.  Real HMAC first NORMALISES the
+key — a key longer than the hash's block is replaced by its hash, then the key is zero-padded to the block — so `k` and
+`k ++ [0]` (and a long key and its digest) are one and the same MAC key.  `norm d` stands for that normalisation;
+`MacInjective` is the instance `norm = id`.  This is a property of HMAC, not of cashews: observed, mirrored by the harness
+(class `secretswap_hmac_equivalent`), not judged. -/
+def MacInjectiveUpTo (norm : Digest → Bytes → Bytes) (mac : Digest → Bytes → Bytes → Bytes) (d : Digest) : Prop :=
+  ∀ s s' m m', mac d s m = mac d s' m' → norm d s = norm d s' ∧ m = m'
+
+theorem macInjective_iff_upTo_id (mac : Digest → Bytes → Bytes → Bytes) (d : Digest) :
+    MacInjective mac d ↔ MacInjectiveUpTo (fun _ s => s) mac d := Iff.rfl
+
+/-- `tampered_never_value` under the weaker, honest hypothesis: acceptance forces the writer's and the reader's secrets to
+be the same HMAC key (equal after normalisation), and `key ‖ p = key0 ‖ p0` -/
+theorem tampered_never_value_up_to_norm (norm : Digest → Bytes → Bytes) (cfg : Cfg α) (s : Signer) (d : Digest)
+    (hinj : MacInjectiveUpTo norm cfg.mac d)
+    (secret0 key0 p0 : Bytes) (hus : us ∉ cfg.mac d secret0 (key0 ++ p0)) (key rest p : Bytes)
+    (hacc : checkHash cfg s key (d.label ++ colon :: (cfg.mac d secret0 (key0 ++ p0) ++ us :: rest)) = .ok p) :
+    p = rest ∧ norm d secret0 = norm d s.secret ∧ key ++ p = key0 ++ p0 := by
+  rw [checkHash_tagged d _ rest hus] at hacc
+  split at hacc
+  · rename_i hm
+    cases hacc
+    have := hinj _ _ _ _ hm
+    exact ⟨rfl, this.1.symm, this.2⟩
+  · cases hacc
+
+/-- a blob written with a secret that is a different key AFTER normalisation is rejected -/
+theorem foreign_secret_rejected_up_to_norm (norm : Digest → Bytes → Bytes) (cfg : Cfg α) (s : Signer) (d : Digest)
+    (hinj : MacInjectiveUpTo norm cfg.mac d)
+    (secret0 key0 p0 key rest : Bytes) (hus : us ∉ cfg.mac d secret0 (key0 ++ p0))
+    (hne : norm d secret0 ≠ norm d s.secret) :
+    checkHash cfg s key (d.label ++ colon :: (cfg.mac d secret0 (key0 ++ p0) ++ us :: rest)) = .unsecure := by
+  rw [checkHash_tagged d _ rest hus]
+  split
+  · rename_i hm; exact absurd (hinj _ _ _ _ hm).1.symm hne
+  · rfl
+
+/-- **… and secrets the MAC itself identifies ARE one secret**, for every MAC: if `mac d s0` and `mac d s` are the same
+function (HMAC: `s = s0 ++ zeros`), a blob written under `s0` verifies under `s`.  Nothing in cashews can tell them apart. -/
+theorem mac_equivalent_secrets_accept (cfg : Cfg α) (d : Digest) (s0 s : Bytes) (hsame : ∀ m, cfg.mac d s0 m = cfg.mac d s m)
+    (key p : Bytes) (hus : us ∉ cfg.mac d s (key ++ p)) :
+    checkHash cfg { secret := s, digest := d } key (hashSign cfg { secret := s0, digest := d } key p) = .ok p := by
+  have h : hashSign cfg { secret := s0, digest := d } key p = hashSign cfg { secret := s, digest := d } key p := by
+    simp [hashSign, genSign, hsame]
+  rw [h]
+  exact checkHash_sign_of_no_us cfg { secret := s, digest := d } key p hus
+
+/-! ### transactions × signed storage: the overlay never holds a stored form -/
+
+/-- **A raw write inside a transaction is read back through the signature check**, inside the transaction: `set_raw` goes to
+the backend, the overlay does not know the key, so `get` (and `get_many`, `get_match`, which ask the same `_get`) is the
+backend's `decode` of the blob for the key being read — every theorem above applies to it unchanged. -/
+theorem tx_read_of_raw_write_is_decoded (cfg : Cfg α) (reg : Registry α) (tx : Tx α) (st : SStore α) (k : Bytes) (w : Val α)
+    (hk : tx.lookup k = none) (hd : k ∉ tx.deleted) :
+    Tx.get cfg reg tx (tx.setRaw st k w) k = decode cfg reg k w false := by
+  simp [Tx.get, hd, hk, Tx.setRaw, SStore.get, SStore.lookup]
+
+/-- … and after the commit: the transaction writes back only its own keys, so the blob is still what the backend holds
+under `k` and a read outside any transaction is again `decode` of it (it is NOT re-encoded and signed for `k`). -/
+theorem commit_keeps_raw_write_under_the_check (cfg : Cfg α) (reg : Registry α) (tx : Tx α) (st : SStore α) (k : Bytes)
+    (w : Val α) (hk : k ∉ tx.pairs.map (·.1)) (hd : k ∉ tx.deleted) :
+    (Tx.commit cfg reg tx (tx.setRaw st k w)).get cfg reg k = decode cfg reg k w false := by
+  unfold Tx.commit
+  rw [SStore.get_setMany_other cfg reg reg tx.pairs _ k hk]
+  have hp : (fun k' : Bytes => !(tx.deleted.contains k')) k = true := by simp [hd]
+  simp only [SStore.get]
+  rw [SStore.lookup_filter_keep (tx.setRaw st k w) (fun k' => !(tx.deleted.contains k')) k hp]
+  simp [Tx.setRaw, SStore.lookup]
+
+/-- hence, with a secret configured, a value read inside the transaction from a raw-written blob comes from a verified MAC
+or is a bare integer literal — `value_only_if` inside a transaction -/
+theorem tx_value_only_if (cfg : Cfg α) (reg : Registry α) (tx : Tx α) (st : SStore α) (k b : Bytes) (v : Val α)
+    (hk : tx.lookup k = none) (hd : k ∉ tx.deleted)
+    (h : Tx.get cfg reg tx (tx.setRaw st k (.bytes b)) k = .value v) :
+    (isIntLit b = true ∧ v = .int (intVal b)) ∨
+    (∃ p, preLoads cfg reg k (.bytes b) false = .loads p ∧ postLoads reg p (cfg.pickler.loads p) = .value v) ∨
+    (∃ p, preLoads cfg reg k (.bytes b) false = .custom p ∧ customDecode reg p = .value v) := by
+  rw [tx_read_of_raw_write_is_decoded cfg reg tx st k (.bytes b) hk hd] at h
+  exact value_only_if cfg reg k b v h
+
+/-- **why `set_raw` must not be buffered**: a stored form put into the overlay (as a transactional `set` of the blob would)
+comes back verbatim as a value — no MAC, no key, no secret is looked at — whatever the blob is … -/
+theorem overlay_returns_a_buffered_blob_unverified (cfg : Cfg α) (reg : Registry α) (tx : Tx α) (st : SStore α) (k b : Bytes) :
+    Tx.get cfg reg (tx.set k (.bytes b)) st k = .value (.bytes b) := by
+  simp [Tx.get, Tx.set, Tx.lookup, SStore.lookup]
+
 /-! ### non-vacuity -/
 
 example : MacInjective pairMac .md5 := pairMac_injective .md5
@@ -551,5 +639,23 @@ example : decodeK toyCfg toyReg (some [0x6b]) (toBytes .other).isSome (.bytes (h
 -- the texts `0042` and `42` are different secrets: a blob written under the first is unsafe for a reader holding the second
 example : decode { toyCfg with signer := some { secret := [0x34, 0x32], digest := .md5 } } toyReg [0x6b]
     (.bytes (hashSign toyCfg { secret := [0x30, 0x30, 0x34, 0x32], digest := .md5 } [0x6b] [0x80, 7])) false = .unsecure := by decide
+
+/-! ### transactions and HMAC-equivalent secrets, evaluated -/
+
+-- a blob for key "k" copied under key "l" with set_raw inside a transaction that has written another key: unsafe inside …
+example : Tx.get toyCfg toyReg (Tx.empty.set [0x6d] (.obj 1)) (Tx.setRaw Tx.empty [] [0x6c] (.bytes (hashSign toyCfg toyS [0x6b] [0x80, 7]))) [0x6c]
+    = .unsecure := by decide
+-- … and after the commit (the raw blob is still what the backend holds: unsafe, not re-signed for the new key)
+example : (Tx.commit toyCfg toyReg (Tx.empty.set [0x6d] (.bytes [0x31])) (Tx.setRaw Tx.empty [] [0x6c] (.bytes (hashSign toyCfg toyS [0x6b] [0x80, 7])))).get toyCfg toyReg [0x6c]
+    = .unsecure := by decide
+-- had the blob been buffered in the overlay instead, the read inside the transaction would hand it out as a value
+example : Tx.get toyCfg toyReg (Tx.empty.set [0x6c] (.bytes (hashSign toyCfg toyS [0x6b] [0x80, 7]))) [] [0x6c]
+    = .value (.bytes (hashSign toyCfg toyS [0x6b] [0x80, 7])) := by decide
+-- `MacInjectiveUpTo` is satisfiable with a non-trivial normalisation: a MAC that ignores trailing zeros of the secret
+def stripZeros (s : Bytes) : Bytes := (s.reverse.dropWhile (· = 0)).reverse
+example : stripZeros [0x6b] = stripZeros [0x6b, 0, 0] := by decide
+example : MacInjectiveUpTo (fun _ => stripZeros) (fun d s m => pairMac d (stripZeros s) m) .md5 := by
+  intro s s' m m' h
+  exact pairMac_injective .md5 _ _ _ _ h
 
 end CashewsVerif.Props.C10
